@@ -643,7 +643,7 @@ class rrule(rrulebase):
                 self._byhour = set(byhour)
 
             self._byhour = tuple(sorted(self._byhour))
-            self._original_rule['byhour'] = self._byhour
+            self._original_rule['byhour'] = tuple(sorted(set(byhour)))
 
         # byminute
         if byminute is None:
@@ -663,7 +663,7 @@ class rrule(rrulebase):
                 self._byminute = set(byminute)
 
             self._byminute = tuple(sorted(self._byminute))
-            self._original_rule['byminute'] = self._byminute
+            self._original_rule['byminute'] = tuple(sorted(set(byminute)))
 
         # bysecond
         if bysecond is None:
@@ -685,7 +685,7 @@ class rrule(rrulebase):
                 self._bysecond = set(bysecond)
 
             self._bysecond = tuple(sorted(self._bysecond))
-            self._original_rule['bysecond'] = self._bysecond
+            self._original_rule['bysecond'] = tuple(sorted(set(bysecond)))
 
         if self._freq >= HOURLY:
             self._timeset = None
